@@ -966,6 +966,10 @@ func c18Killed(g *FG, gd Guard, l Loc, objs map[types.Object]bool) bool {
 	return false
 }
 
+// c18NonNegExtra (optional, set by c05sgr.go): shows that a non-constant right-hand side of an update of an index
+// variable is >= 0 where it is evaluated (a dominating guard, or a callee all of whose returns are constants >= 0).
+var c18NonNegExtra func(c *Ctx, fi *FuncInfo, stmt *ast.AssignStmt, rhs ast.Expr) bool
+
 // lengthGuards: every index / slice expression of fi is within bounds on every path.
 func (w *c18World) lengthGuards(fi *FuncInfo) {
 	c := w.c
@@ -1101,7 +1105,9 @@ func (w *c18World) lengthGuards(fi *FuncInfo) {
 					switch t.Tok {
 					case token.ASSIGN, token.DEFINE, token.ADD_ASSIGN:
 						if !nonNegExpr(o, t, t.Rhs[i]) {
-							ok = false
+							if c18NonNegExtra == nil || !c18NonNegExtra(c, fi, t, t.Rhs[i]) {
+								ok = false
+							}
 						}
 					default:
 						ok = false
